@@ -192,6 +192,51 @@ def _w_sampler(case, ctx, rng):
                     strat = (ng, ng)
             _check_sample(ctx, f"GCPSampler.{which}", rr.value, A, k2, strat, which=which)
     ctx.check(state_digest(data) == ddig, "GCPSampler", "MUTATED", "sampling changed the data")
+    # every draw comes from the global stream: the same seed reproduces the same sequence of samples
+    seqs = []
+    for _rep in range(2):
+        np.random.seed(case["cseed"] % (2 ** 31))
+        S2 = mk()
+        seq = []
+        for which in ("function_sample", "gradient_sample", "gradient_sample", "function_sample"):
+            rr = ctx.call(f"GCPSampler.{which}", getattr(S2, which), data)
+            seq.append(tuple(np.asarray(x).tolist() for x in rr.value) if rr.ok else None)
+        seqs.append(seq)
+    ctx.check(seqs[0] == seqs[1], "GCPSampler", "NOT-REPRODUCIBLE", "the same global seed gives another sequence of samples")
+    if kind != "uniform-dense" and 0 < nnz < size:
+        # the stratum samplers called directly, with and without replacement
+        from pyttb.pyttb_utils import tt_sub2ind
+
+        nzidx = np.sort(tt_sub2ind(data.shape, data.subs))
+        for wr in (True, False):
+            want_n = int(min(max(1, ng), max(1, (size - nnz) // 2) if not wr else 10 ** 9))      # (close to all zeros without replacement is a documented rejection)
+            rr = ctx.call("samplers.zeros", SAM.zeros, data, nzidx, want_n, with_replacement=wr)
+            if rr.ok:
+                zs = np.asarray(rr.value)
+                okz = zs.ndim == 2 and zs.shape[1] == A.ndim and zs.shape[0] <= want_n and bool((zs >= 0).all()) and bool((zs < np.array(A.shape)).all())
+                ctx.check(okz, "samplers.zeros", "SAMPLE-OUTSIDE", f"zero sample of shape {zs.shape} for {want_n} requested", with_replacement=wr)
+                if okz and zs.shape[0]:
+                    ctx.check(bool(np.all(A[tuple(zs.T)] == 0)), "samplers.zeros", "SAMPLE-VALUE", "an entry drawn as a zero is a stored nonzero of the data", with_replacement=wr)
+                    if not wr:
+                        ctx.check(len({tuple(r_) for r_ in zs.tolist()}) == zs.shape[0], "samplers.zeros", "SAMPLE-REPEATS", "repeated subscripts in a sample drawn without replacement",
+                                  with_replacement=wr)
+            elif isinstance(rr.exc, ValueError) and not wr and ("too many zero samples" in str(rr.exc) or "Cannot sample more" in str(rr.exc)):
+                ctx.tag("zeros-without-replacement:documented-rejection")
+            else:
+                ctx.check(False, "samplers.zeros", "RAISE:" + type(rr.exc).__name__, f"{type(rr.exc).__name__}: {rr.exc} | {rr.tb}", with_replacement=wr)
+            want_nz = int(min(max(1, ng), nnz))
+            rr = ctx.call("samplers.nonzeros", SAM.nonzeros, data, want_nz, wr)
+            if rr.ok:
+                ns, nv = (np.asarray(x) for x in rr.value)
+                okn = ns.ndim == 2 and ns.shape == (want_nz, A.ndim) and bool((ns >= 0).all()) and bool((ns < np.array(A.shape)).all())
+                ctx.check(okn, "samplers.nonzeros", "SAMPLE-OUTSIDE", f"nonzero sample of shape {ns.shape} for {want_nz} requested", with_replacement=wr)
+                if okn:
+                    ctx.check(bool(np.array_equal(nv.reshape(-1), A[tuple(ns.T)])) and bool(np.all(A[tuple(ns.T)] != 0)), "samplers.nonzeros", "SAMPLE-VALUE",
+                              "values of the nonzero sample are not the stored values at its subscripts", with_replacement=wr)
+                    if not wr:
+                        ctx.check(len({tuple(r_) for r_ in ns.tolist()}) == ns.shape[0], "samplers.nonzeros", "SAMPLE-REPEATS", "repeated subscripts without replacement", with_replacement=wr)
+            else:
+                ctx.check(False, "samplers.nonzeros", "RAISE:" + type(rr.exc).__name__, f"{type(rr.exc).__name__}: {rr.exc} | {rr.tb}", with_replacement=wr)
 
 
 # ------------------------------------------------------------------ solves ---------------------
